@@ -1453,11 +1453,36 @@ enum Recipe {
     /// mock graph through pack_mock_graph
     Mock(Dag),
     /// a table of a corpus font: read, to_owned_table, dump_table
-    Owned { sel: u16 },
+    /// `edit` > 0: the font is a sibling of the corpus font (cmap segments / name bytes edited in place, all lengths
+    /// and offsets unchanged)
+    Owned {
+        sel: u16,
+        #[serde(default)]
+        edit: u8,
+        #[serde(default)]
+        seed: u64,
+    },
     /// FontBuilder: generated tables (add_table) + raw tables + copy_missing_tables from a corpus font
-    Font { font: u16, tables: Vec<(u8, Vec<u32>)>, raw: Vec<([u8; 4], Vec<u8>)>, copy_first: bool },
+    Font {
+        font: u16,
+        tables: Vec<(u8, Vec<u32>)>,
+        raw: Vec<([u8; 4], Vec<u8>)>,
+        copy_first: bool,
+        #[serde(default)]
+        edit: u8,
+    },
     /// klippa::subset_font of a corpus font with a generated plan
-    Subset { font: u16, seed: u64, keep: u8, flags: u16, gids: u8, drop: u8, all_features: bool },
+    Subset {
+        font: u16,
+        seed: u64,
+        keep: u8,
+        flags: u16,
+        gids: u8,
+        drop: u8,
+        all_features: bool,
+        #[serde(default)]
+        edit: u8,
+    },
 }
 
 fn kind_name(r: &Recipe) -> &'static str {
@@ -1824,10 +1849,152 @@ fn compile_gposb(seed: u64, lookups: &[LkSpec], var: bool) -> Result<Vec<u8>, St
 
 // ---- corpus tables, FontBuilder, klippa ---------------------------------------------------------
 
-fn compile_owned(sel: u16) -> Result<Vec<u8>, String> {
+thread_local! {
+    /// where the bytes of a font live while a read-based recipe is compiled: false = a fresh allocation per
+    /// compilation; true = this thread's long-lived buffer (every font at the same address, one after the other)
+    static SHARED_PLACEMENT: std::cell::Cell<bool> = const { std::cell::Cell::new(false) };
+    static SHARED_BUFFER: std::cell::RefCell<Vec<u8>> = const { std::cell::RefCell::new(Vec::new()) };
+}
+const SHARED_OFFSET: usize = 64;
+
+fn rd16(d: &[u8], at: usize) -> Option<u16> {
+    d.get(at..at + 2).map(|s| u16::from_be_bytes([s[0], s[1]]))
+}
+fn rd32(d: &[u8], at: usize) -> Option<u32> {
+    d.get(at..at + 4).map(|s| u32::from_be_bytes([s[0], s[1], s[2], s[3]]))
+}
+fn wr16(d: &mut [u8], at: usize, v: u16) {
+    if let Some(s) = d.get_mut(at..at + 2) {
+        s.copy_from_slice(&v.to_be_bytes());
+    }
+}
+fn wr32(d: &mut [u8], at: usize, v: u32) {
+    if let Some(s) = d.get_mut(at..at + 4) {
+        s.copy_from_slice(&v.to_be_bytes());
+    }
+}
+
+/// Turn the font into a sibling: up to `edit` cmap segments / groups (formats 4 and 12) are moved up into the gap
+/// behind them (idDelta adjusted, same glyphs), a few letters of the name storage are replaced. No length or offset
+/// changes. Returns the code points that only the sibling maps.
+fn apply_edits(data: &mut [u8], edit: u8, seed: u64) -> Vec<u32> {
+    let mut moved = vec![];
+    if edit == 0 {
+        return moved;
+    }
+    let mut p = seed ^ 0xED17;
+    let (mut cmap, mut name) = (None, None);
+    if let Some(f) = font_ref(data) {
+        for r in f.table_directory.table_records() {
+            if r.tag() == Tag::new(b"cmap") {
+                cmap = Some((r.offset() as usize, r.length() as usize));
+            }
+            if r.tag() == Tag::new(b"name") {
+                name = Some((r.offset() as usize, r.length() as usize));
+            }
+        }
+    }
+    if let Some((base, _)) = cmap {
+        let n = rd16(data, base + 2).unwrap_or(0) as usize;
+        let subs: BTreeSet<usize> = (0..n).filter_map(|i| rd32(data, base + 4 + i * 8 + 4)).map(|o| base + o as usize).collect();
+        for _ in 0..edit {
+            for sub in &subs {
+                match rd16(data, *sub) {
+                    Some(4) => {
+                        let segs = rd16(data, sub + 6).unwrap_or(0) as usize / 2;
+                        if segs < 2 {
+                            continue;
+                        }
+                        let i = below(&mut p, segs as u64 - 1) as usize;
+                        let (e_at, s_at, d_at, r_at) = (sub + 14 + 2 * i, sub + 16 + 2 * segs + 2 * i, sub + 16 + 4 * segs + 2 * i, sub + 16 + 6 * segs + 2 * i);
+                        let (Some(end), Some(start), Some(delta), Some(ro), Some(next)) = (rd16(data, e_at), rd16(data, s_at), rd16(data, d_at), rd16(data, r_at), rd16(data, s_at + 2)) else { continue };
+                        if ro != 0 || start > end || next <= end.saturating_add(1) || end == 0xFFFF {
+                            continue;
+                        }
+                        let gap = (next - end - 1) as u64;
+                        let d = 1 + below(&mut p, gap.min(6)) as u16;
+                        wr16(data, s_at, start + d);
+                        wr16(data, e_at, end + d);
+                        wr16(data, d_at, delta.wrapping_sub(d));
+                        moved.extend((start + d..=end + d).take(16).map(|c| c as u32));
+                    }
+                    Some(12) => {
+                        let groups = rd32(data, sub + 12).unwrap_or(0) as usize;
+                        if groups < 2 {
+                            continue;
+                        }
+                        let i = below(&mut p, groups as u64 - 1) as usize;
+                        let at = sub + 16 + 12 * i;
+                        let (Some(start), Some(end), Some(next)) = (rd32(data, at), rd32(data, at + 4), rd32(data, at + 12)) else { continue };
+                        if start > end || next <= end.saturating_add(1) {
+                            continue;
+                        }
+                        let gap = (next - end - 1) as u64;
+                        let d = 1 + below(&mut p, gap.min(6)) as u32;
+                        wr32(data, at, start + d);
+                        wr32(data, at + 4, end + d);
+                        moved.extend((start + d..=end + d).take(16));
+                    }
+                    _ => {}
+                }
+            }
+        }
+    }
+    if let Some((base, len)) = name {
+        let storage = base + rd16(data, base + 4).unwrap_or(0) as usize;
+        let end = (base + len).min(data.len());
+        if storage < end {
+            for _ in 0..edit {
+                let at = storage + below(&mut p, (end - storage) as u64) as usize;
+                if data[at].is_ascii_lowercase() {
+                    data[at] = b'a' + below(&mut p, 26) as u8;
+                }
+            }
+        }
+    }
+    moved
+}
+
+/// Runs `f` on corpus font `fi` (or its sibling) with the font bytes placed according to SHARED_PLACEMENT.
+fn with_font<R>(fi: usize, edit: u8, seed: u64, f: impl FnOnce(&FontRef<'_>, &[u32]) -> R) -> Result<R, String> {
+    let src = &corpus().fonts[fi].data;
+    if SHARED_PLACEMENT.with(|s| s.get()) {
+        SHARED_BUFFER.with(|b| {
+            let mut buf = b.borrow_mut();
+            if buf.len() < SHARED_OFFSET + src.len() {
+                buf.resize((SHARED_OFFSET + src.len()).max(1 << 20), 0);
+            }
+            let slot = &mut buf[SHARED_OFFSET..SHARED_OFFSET + src.len()];
+            slot.copy_from_slice(src);
+            let moved = apply_edits(slot, edit, seed);
+            let font = font_ref(slot).ok_or("font does not open")?;
+            Ok(f(&font, &moved))
+        })
+    } else {
+        let mut fresh = src.clone();
+        let moved = apply_edits(&mut fresh, edit, seed);
+        let font = font_ref(&fresh).ok_or("font does not open")?;
+        Ok(f(&font, &moved))
+    }
+}
+
+/// the sibling of a read-based recipe (same recipe on the other revision of the font)
+fn sibling_of(r: &Recipe) -> Option<Recipe> {
+    let mut s = r.clone();
+    match &mut s {
+        Recipe::Owned { edit, .. } | Recipe::Font { edit, .. } | Recipe::Subset { edit, .. } => *edit = if *edit == 0 { 2 } else { 0 },
+        _ => return None,
+    }
+    Some(s)
+}
+
+fn compile_owned(sel: u16, edit: u8, seed: u64) -> Result<Vec<u8>, String> {
     let c = corpus();
     let Some((fi, kind)) = pick(&c.owned, sel) else { return Err("no corpus table".into()) };
-    let font = font_ref(&c.fonts[fi].data).ok_or("font does not open")?;
+    with_font(fi, edit, seed, |font, _| compile_owned_table(font, kind))?
+}
+
+fn compile_owned_table(font: &FontRef<'_>, kind: u8) -> Result<Vec<u8>, String> {
     macro_rules! go {
         ($get:ident, $ty:ty) => {{
             let t: $ty = font.$get().map_err(errstr)?.to_owned_table();
@@ -1848,10 +2015,17 @@ fn compile_owned(sel: u16) -> Result<Vec<u8>, String> {
     }
 }
 
-fn compile_font(font: u16, tables: &[(u8, Vec<u32>)], raw: &[([u8; 4], Vec<u8>)], copy_first: bool) -> Result<Vec<u8>, String> {
+fn compile_font(font: u16, tables: &[(u8, Vec<u32>)], raw: &[([u8; 4], Vec<u8>)], copy_first: bool, edit: u8) -> Result<Vec<u8>, String> {
     let c = corpus();
     let all: Vec<usize> = (0..c.fonts.len()).collect();
-    let donor = pick(&all, font).and_then(|i| font_ref(&c.fonts[i].data));
+    let Some(fi) = pick(&all, font) else { return compile_font_with(None, tables, raw, copy_first) };
+    if font_ref(&c.fonts[fi].data).is_none() {
+        return compile_font_with(None, tables, raw, copy_first);
+    }
+    with_font(fi, edit, font as u64, |donor, _| compile_font_with(Some(donor.clone()), tables, raw, copy_first))?
+}
+
+fn compile_font_with(donor: Option<FontRef<'_>>, tables: &[(u8, Vec<u32>)], raw: &[([u8; 4], Vec<u8>)], copy_first: bool) -> Result<Vec<u8>, String> {
     let mut fb = FontBuilder::new();
     if let (true, Some(d)) = (copy_first, donor.as_ref()) {
         fb.copy_missing_tables(d.clone());
@@ -1882,13 +2056,22 @@ const SUBSET_FLAG_BITS: [u16; 6] = [0x0001, 0x0002, 0x0008, 0x0010, 0x0040, 0x00
 const DEFAULT_DROP: &[&[u8; 4]] = &[b"morx", b"mort", b"kerx", b"kern", b"JSTF", b"DSIG", b"EBDT", b"EBLC", b"EBSC", b"SVG ", b"PCLT", b"LTSH", b"Feat", b"Glat", b"Gloc", b"Silf", b"Sill"];
 const EXTRA_DROP: &[&[u8; 4]] = &[b"GSUB", b"GPOS", b"GDEF", b"gvar", b"HVAR", b"COLR", b"name", b"post"];
 
-fn compile_subset(font: u16, seed: u64, keep: u8, flags: u16, gids: u8, drop: u8, all_features: bool) -> Result<Vec<u8>, String> {
-    use skrifa::MetadataProvider;
+#[allow(clippy::too_many_arguments)]
+fn compile_subset(font: u16, seed: u64, keep: u8, flags: u16, gids: u8, drop: u8, all_features: bool, edit: u8) -> Result<Vec<u8>, String> {
     let c = corpus();
     let Some(fi) = pick(&c.subsettable, font) else { return Err("no subsettable font".into()) };
-    let f = font_ref(&c.fonts[fi].data).ok_or("font does not open")?;
+    with_font(fi, edit, seed, |f, moved| subset_with(f, moved, seed, keep, flags, gids, drop, all_features))?
+}
+
+#[allow(clippy::too_many_arguments)]
+fn subset_with(f: &FontRef<'_>, moved: &[u32], seed: u64, keep: u8, flags: u16, gids: u8, drop: u8, all_features: bool) -> Result<Vec<u8>, String> {
+    use skrifa::MetadataProvider;
     let mut p = seed;
     let mut unicodes = IntSet::<u32>::empty();
+    // the code points that only this revision of the font maps are always requested
+    for cp in moved {
+        unicodes.insert(*cp);
+    }
     for (cp, _) in f.charmap().mappings() {
         if below(&mut p, 64) < keep as u64 {
             unicodes.insert(cp);
@@ -1923,8 +2106,8 @@ fn compile_subset(font: u16, seed: u64, keep: u8, flags: u16, gids: u8, drop: u8
     name_ids.insert_range(NameId::from(0)..=NameId::from(6));
     let mut langs = IntSet::<u16>::empty();
     langs.insert(0x0409);
-    let plan = klippa::Plan::new(&glyphs, &unicodes, &f, klippa::SubsetFlags::from(bits), &drop_tables, &scripts, &features, &name_ids, &langs);
-    klippa::subset_font(&f, &plan).map_err(|e| format!("{e:?}").chars().take(200).collect())
+    let plan = klippa::Plan::new(&glyphs, &unicodes, f, klippa::SubsetFlags::from(bits), &drop_tables, &scripts, &features, &name_ids, &langs);
+    klippa::subset_font(f, &plan).map_err(|e| format!("{e:?}").chars().take(200).collect())
 }
 
 // ---- dispatcher ---------------------------------------------------------------------------------
@@ -1951,9 +2134,9 @@ fn compile_inner(r: &Recipe) -> Result<Vec<u8>, String> {
             }
             compile_mock(d)
         }
-        Recipe::Owned { sel } => compile_owned(*sel),
-        Recipe::Font { font, tables, raw, copy_first } => compile_font(*font, tables, raw, *copy_first),
-        Recipe::Subset { font, seed, keep, flags, gids, drop, all_features } => compile_subset(*font, *seed, *keep, *flags, *gids, *drop, *all_features),
+        Recipe::Owned { sel, edit, seed } => compile_owned(*sel, *edit, *seed),
+        Recipe::Font { font, tables, raw, copy_first, edit } => compile_font(*font, tables, raw, *copy_first, *edit),
+        Recipe::Subset { font, seed, keep, flags, gids, drop, all_features, edit } => compile_subset(*font, *seed, *keep, *flags, *gids, *drop, *all_features, *edit),
     }
 }
 
@@ -2295,8 +2478,14 @@ fn spaces_family() -> BoxedStrategy<Dag> {
     let root_spec = (proptest::collection::vec(prop_oneof![3 => 30_000u32..33_000, 2 => 20_000u32..30_000, 1 => 8u32..64], 1..4), any::<bool>());
     // (roots, size of the shared node, big leaves owned by the shared node, shared node also linked from the root)
     let group = (proptest::collection::vec(root_spec, 2..4), 8u32..40, proptest::collection::vec(prop_oneof![2 => 28_000u32..33_000, 1 => 8u32..64], 0..3), any::<bool>());
-    (proptest::collection::vec(group, 1..4), 0usize..3, 0u8..2, any::<u32>(), any::<u16>())
-        .prop_map(|(groups, n_upper, order, salt, via)| {
+    // twins module: 2..3 nodes of EQUAL length that are children of both a 16-bit parent `e` (space 0) and a 32-bit
+    // space root `w`, so they and everything below them are duplicated into w's space; they tie on distance, and
+    // they reach a shared grandchild `n` through chains of different length and own leaves of different sizes, so the
+    // layout below them shows how the tie was broken. (chain length to n, size of the chain nodes, own leaf)
+    let mid = (0u8..3, 8u32..14, prop_oneof![1 => Just(None), 2 => (8u32..20).prop_map(Some)]);
+    let twins = prop_oneof![1 => Just(None), 3 => (16u32..40, proptest::collection::vec(mid, 2..4), 8u32..16, any::<bool>(), any::<bool>()).prop_map(Some)];
+    (proptest::collection::vec(group, 1..4), 0usize..3, 0u8..2, any::<u32>(), any::<u16>(), twins)
+        .prop_map(|(groups, n_upper, order, salt, via, twins)| {
             let mut nodes: Vec<DNode> = vec![];
             let mut stamp = salt.wrapping_mul(64);
             let mut mk = |size: u32, w: u8, nodes: &mut Vec<DNode>| {
@@ -2309,6 +2498,11 @@ fn spaces_family() -> BoxedStrategy<Dag> {
                 let u = mk(10, 2, &mut nodes);
                 nodes[0].links.push(u as u32);
             }
+            let twin_e = twins.as_ref().map(|_| {
+                let e = mk(10, 2, &mut nodes);
+                nodes[0].links.push(e as u32);
+                e
+            });
             let upper = nodes.len();
             // space roots
             let mut root_idx: Vec<Vec<usize>> = vec![];
@@ -2325,7 +2519,53 @@ fn spaces_family() -> BoxedStrategy<Dag> {
                 }
                 root_idx.push(v);
             }
+            let twin_w = twins.as_ref().map(|t| {
+                let w = mk(12, 4, &mut nodes);
+                let from = if t.3 && upper > 2 { 1 } else { 0 };
+                nodes[from].links.push(w as u32);
+                w
+            });
             let nroots = nodes.len() - upper;
+            if let (Some((t, mids, n_size, _, n_from_root)), Some(e), Some(w)) = (twins.as_ref(), twin_e, twin_w) {
+                // lower nodes in index order: mids, chain nodes, leaves, n
+                let mid_idx: Vec<usize> = mids.iter().map(|_| mk(8, 2, &mut nodes)).collect();
+                let mut chain_heads: Vec<Option<(usize, usize)>> = vec![];
+                for (chain, m_size, _) in mids {
+                    let mut head_tail = None;
+                    for k in 0..*chain {
+                        let m = mk(*m_size + k as u32, 2, &mut nodes);
+                        head_tail = match head_tail {
+                            None => Some((m, m)),
+                            Some((h, tail)) => {
+                                nodes[tail].links.push(m as u32);
+                                Some((h, m))
+                            }
+                        };
+                    }
+                    chain_heads.push(head_tail);
+                }
+                let leaves: Vec<Option<usize>> = mids.iter().map(|(_, _, z)| z.map(|size| mk(size, 2, &mut nodes))).collect();
+                let n = mk(*n_size, 2, &mut nodes);
+                for (i, m) in mid_idx.iter().enumerate() {
+                    match chain_heads[i] {
+                        Some((h, tail)) => {
+                            nodes[*m].links.push(h as u32);
+                            nodes[tail].links.push(n as u32);
+                        }
+                        None => nodes[*m].links.push(n as u32),
+                    }
+                    if let Some(z) = leaves[i] {
+                        nodes[*m].links.push(z as u32);
+                    }
+                    // equal total length: payload + 2 bytes per link = t
+                    nodes[*m].size = (*t).max(12) - 2 * nodes[*m].links.len() as u32;
+                    nodes[e].links.push(*m as u32);
+                    nodes[w].links.push(*m as u32);
+                }
+                if *n_from_root {
+                    nodes[0].links.push(n as u32);
+                }
+            }
             for (gi, (roots, shared_size, shared_leaves, from_upper)) in groups.iter().enumerate() {
                 let shared = mk(*shared_size, 2, &mut nodes);
                 for size in shared_leaves {
@@ -2372,8 +2612,12 @@ fn dag_strategy(small: bool) -> BoxedStrategy<Dag> {
     }
 }
 
+fn edit_strategy() -> BoxedStrategy<u8> {
+    prop_oneof![2 => Just(0u8), 3 => 1u8..6].boxed()
+}
+
 fn owned_recipe() -> BoxedStrategy<Recipe> {
-    any::<u16>().prop_map(|sel| Recipe::Owned { sel }).boxed()
+    (any::<u16>(), edit_strategy(), any::<u64>()).prop_map(|(sel, edit, seed)| Recipe::Owned { sel, edit, seed }).boxed()
 }
 
 fn font_recipe() -> BoxedStrategy<Recipe> {
@@ -2383,14 +2627,15 @@ fn font_recipe() -> BoxedStrategy<Recipe> {
         proptest::collection::vec((0u8..7, proptest::collection::vec(word(), 0..300)), 0..4),
         proptest::collection::vec((tag, proptest::collection::vec(any::<u8>(), 0..40)), 0..4),
         any::<bool>(),
+        edit_strategy(),
     )
-        .prop_map(|(font, tables, raw, copy_first)| Recipe::Font { font, tables, raw, copy_first })
+        .prop_map(|(font, tables, raw, copy_first, edit)| Recipe::Font { font, tables, raw, copy_first, edit })
         .boxed()
 }
 
 fn subset_recipe() -> BoxedStrategy<Recipe> {
-    (any::<u16>(), any::<u64>(), prop_oneof![2 => 1u8..8, 3 => 8u8..40, 1 => Just(64u8)], prop_oneof![2 => Just(0u16), 3 => 0u16..64], 0u8..6, prop_oneof![3 => Just(0u8), 2 => any::<u8>()], prop_oneof![3 => Just(false), 1 => Just(true)])
-        .prop_map(|(font, seed, keep, flags, gids, drop, all_features)| Recipe::Subset { font, seed, keep, flags, gids, drop, all_features })
+    (any::<u16>(), any::<u64>(), prop_oneof![2 => 1u8..8, 3 => 8u8..40, 1 => Just(64u8)], prop_oneof![2 => Just(0u16), 3 => 0u16..64], 0u8..6, prop_oneof![3 => Just(0u8), 2 => any::<u8>()], prop_oneof![3 => Just(false), 1 => Just(true)], edit_strategy())
+        .prop_map(|(font, seed, keep, flags, gids, drop, all_features, edit)| Recipe::Subset { font, seed, keep, flags, gids, drop, all_features, edit })
         .boxed()
 }
 
@@ -2541,6 +2786,7 @@ fn test_sched_budgeted(c: &SchedCase, stats: &Stats, replay: bool) -> CaseResult
 fn test_sched(c: &SchedCase, stats: &Stats) -> CaseResult {
     let kind = kind_name(&c.value);
     push_id_gaps(vec![]);
+    SHARED_PLACEMENT.with(|s| s.set(false));
     // (a) reference
     let reference = compile(&c.value);
     LAST_COST.with(|k| k.set(1 + reference.digest().1 / 20_000));
@@ -2561,6 +2807,28 @@ fn test_sched(c: &SchedCase, stats: &Stats) -> CaseResult {
     stats.evals(1);
     if after != reference {
         return Err(fail("after-unrelated", &c.value, format!("compiling the same {kind} value again after {} unrelated compilations gave a different result: {}", c.prior.len(), diff_msg(&reference, &after))));
+    }
+    // (b') buffer reuse: the other revision of the font, then this one, both placed at the same address of a
+    // long-lived buffer (the reference was computed from a fresh allocation)
+    let mut reused = false;
+    if let Some(sib) = sibling_of(&c.value) {
+        SHARED_PLACEMENT.with(|s| s.set(true));
+        let _ = compile(&sib);
+        let out = compile(&c.value);
+        let twice = compile(&c.value);
+        SHARED_PLACEMENT.with(|s| s.set(false));
+        stats.evals(2);
+        reused = true;
+        stats.class("buffer-reuse:sibling-then-value-at-one-address");
+        for o in [&out, &twice] {
+            if *o != reference {
+                return Err(fail(
+                    "buffer-reuse",
+                    &c.value,
+                    format!("compiling the same {kind} value from a reused buffer (a sibling font with in-place cmap/name edits was compiled from the same address just before) gave a result different from the compilation from a fresh allocation: {}", diff_msg(&reference, o)),
+                ));
+            }
+        }
     }
     // (c) owned schedule of the object counter
     let mut any_gaps = false;
@@ -2608,7 +2876,7 @@ fn test_sched(c: &SchedCase, stats: &Stats) -> CaseResult {
     }
     if f.nontrivial {
         stats.class(&format!("nontrivial:{kind}"));
-        if any_gaps || matches!(c.value, Recipe::Subset { .. }) {
+        if any_gaps || reused {
             stats.nontrivial(hash_json(&c.value));
         }
         if stats.want_sample() && ids >= 8 {
